@@ -79,7 +79,9 @@ func c16Scenario(c *Ctx, idx int, r *Rng) (mline, mimpl, mcase string) {
 	for i, f := range append(append([]string(nil), lockables...), "n.bin", "side-only.dat") {
 		pidx[f] = i + 1
 	}
-	enc := func() string { return fmt.Sprintf("C16 scen seed=%d idx=%d steps=%s", c.Seed, idx, strings.Join(steps, " ; ")) }
+	enc := func() string {
+		return fmt.Sprintf("C16 scen seed=%d idx=%d steps=%s", c.Seed, idx, strings.Join(steps, " ; "))
+	}
 	fail := func(what, impl, sig string) {
 		c.R.Add(Finding{Kind: "oracle", What: what, Case: clip(enc(), 2500), Impl: clip(impl, 500), Sig: sig})
 	}
@@ -125,7 +127,7 @@ func c16Scenario(c *Ctx, idx int, r *Rng) (mline, mimpl, mcase string) {
 	versions := map[string][][]byte{}
 	modified := map[string]bool{}
 	theirsSeen := map[string]bool{} // paths bob held at the time of a successful verification
-	verifiedOnce := false // a verification has run: the cache may hold bob's locks (D13)
+	verifiedOnce := false           // a verification has run: the cache may hold bob's locks (D13)
 	var mops, mobs []string
 	observe := func() {
 		t := table()
@@ -515,6 +517,42 @@ func c16Scenario(c *Ctx, idx int, r *Rng) (mline, mimpl, mcase string) {
 				w.git("checkout", "-q", "side")
 				w.git("checkout", "-q", "master")
 				log("checkout side ; checkout master")
+			}
+			if len(modified) == 0 && r.Chance(45) {
+				// a merge that changes a lockable file nobody here holds the lock of: Git re-creates the file
+				// writable, the post-merge hook — whatever kind of merge it was — protects it again
+				var cand []string
+				for _, l := range lockables {
+					if _, ex := writable(l); ex && table()[l] != "alice" {
+						cand = append(cand, l)
+					}
+				}
+				if len(cand) > 0 {
+					g := Pick(r, cand)
+					head := w.must("rev-parse", "HEAD")
+					w.git("checkout", "-q", "-b", "mergeme")
+					os.Chmod(filepath.Join(w.dir, g), 0o644)
+					w.write(g, r.Bytes(45))
+					w.git("add", "-A")
+					w.git("commit", "-qm", "change on a branch")
+					w.git("checkout", "-q", "master")
+					kind := Pick(r, []string{"--squash", "--squash", "--no-ff", "--ff-only"})
+					_, mcode := w.git("merge", "-q", kind, "mergeme")
+					log("merge %s of a branch that changed %q -> %d", kind, g, mcode)
+					c.R.Count("merge." + kind)
+					if mcode == 0 && readonly {
+						for _, l := range lockables {
+							if wr, ex := writable(l); ex && wr && table()[l] != "alice" {
+								fail("a lockable file is writable after a merge (post-merge hook) although the current user does not hold its lock", fmt.Sprintf("%s after `git merge %s`", l, kind), "")
+								break
+							}
+						}
+					}
+					// abandon the merge; reset runs no hook, the checkout that follows does
+					w.git("reset", "-q", "--hard", head)
+					w.git("branch", "-q", "-D", "mergeme")
+					w.git("checkout", "-q", "-f", "master")
+				}
 			}
 		case 10: // bob takes a lock
 			if _, held := table()[f]; !held {
